@@ -2501,8 +2501,11 @@ impl Formatter {
       let s = self.subscript(sub);
       if i == 0 {
         src = format!("{}", s);
-      } else {
+      } else if self.html {
         src = format!("{},{}", src, s);
+      } else {
+        // a space after the comma: `q[a.b,c]` would read `.b,c` as a swizzle
+        src = format!("{}, {}", src, s);
       }
     }
     if self.html {
@@ -2565,8 +2568,11 @@ impl Formatter {
       let s = self.subscript(sub);
       if i == 0 {
         src = format!("{}", s);
-      } else {
+      } else if self.html {
         src = format!("{},{}", src, s);
+      } else {
+        // a space after the comma: `q[a.b,c]` would read `.b,c` as a swizzle
+        src = format!("{}, {}", src, s);
       }
     }
     if self.html {
